@@ -1597,6 +1597,8 @@ Definition set_header_list (added : list header) (k v : bytes) : res (list heade
 (* src/parser.rs works on what httparse returns: the outcome of parse() and the fields of the Response / Request it filled in.
    The http builder keeps version, status (or method) and the fields added so far; body(()) fails on a name it does not accept
    (Parser.builder_ok) and otherwise yields the model's response with the HeaderMap of those fields. *)
+(* Writer::try_write runs a closure on the cursor: the closure is a function of the position *)
+Definition run_block (position : N) (block : N -> N * bool) : res (N * bool) := Ok (block position).
 Inductive hp_status := HpComplete (n : N) | HpPartial.
 Inductive hp_result := HpOk (s : hp_status) | HpErr (e : hperr).
 Definition hperr_is_too_many (e : hperr) : bool := match e with ETooManyHeaders => true | _ => false end.
@@ -1975,6 +1977,14 @@ FLOWFUNCS = [
                 (r"call\.is_close_delimited\(\)", "call_is_close_delimited(state_reader)")],
          params=[("state_reader", "val", "option reader", None)],
          known_res=[("call_is_ended", "gen_call_is_ended", 1), ("call_is_close_delimited", "gen_call_is_close_delimited", 1)], rust_ret="bool"),
+    # src/util.rs: Writer::try_write -- the all-or-nothing write every translated writer function relies on (the translator renders
+    # `w.try_write(|w| write!(..))` as "appended completely, or nothing and false").  The cursor is its position, the closure a function
+    # from the position to the new position and whether it succeeded (std: Cursor<&mut [u8]>::write_all).
+    dict(coq="gen_writer_try_write", file="src/util.rs", impl=r"impl<'a>\s+Writer<'a>", rust="try_write",
+         subst=[(r"self\.0\.position\(\)", "position"), (r"\(block\)\(self\)\.is_ok\(\)", "run_block(&mut position, block)?"),
+                (r"self\.0\.set_position\(pos\);", "position = pos;")],
+         params=[("position", "mutval", "N", None), ("block", "val", "N -> N * bool", None)],
+         known_state2=[("run_block", "run_block")], rust_ret="bool"),
     # src/ext.rs: HeaderIterExt::has (the test behind `Connection: close` and `Expect: 100-continue`): some field with that name has that value
     dict(coq="gen_headers_has", file="src/ext.rs", impl=None, rust="has", kind="plain", bytes_vars=["key", "value"],
          subst=[(r"self\s*\.filter", "headers.iter().filter")],
